@@ -64,3 +64,18 @@ Proof. reflexivity. Qed.
 (* a zero-length recvmsg would detach the rights of the next segment (D17, fixed in read_once) *)
 Example zero_length_read : krecv0 [([4;5], [40]); ([6], [])] = ([40], [([4;5], []); ([6], [])]).
 Proof. reflexivity. Qed.
+
+(* why the hypothesis about the sender is needed: one write carrying the tail of f1 and the head of f2,
+   with f2's descriptors attached to it (so they ride on a byte of f1), is not a [chunking], and the
+   receive path indeed hands the descriptors out with message 1 *)
+Definition sched_bad : list ev :=
+  [ PeerWrite (firstnN 10 f1) [];
+    PeerWrite (skipnN 10 f1 ++ firstnN 4 f2) [40; 41];
+    PeerWrite (skipnN 4 f2) [];
+    GetNext Nonblock [KDeliver 100; KDeliver 100; KDeliver 100];
+    GetNext Nonblock [KDeliver 100; KDeliver 100; KDeliver 100] ].
+Example sched_bad_misattributes :
+  map (fun o => match o with OMsg m => m_fds m | _ => [] end) (snd (run Dx decx sched_bad)) = [[40; 41]; []].
+Proof. vm_compute. reflexivity. Qed.
+Example sched_bad_not_chunking : ~ chunking sentx sched_bad [].
+Proof. vm_compute. intros H. discriminate H. Qed.
